@@ -692,6 +692,12 @@ func TestVerifBoundedC18RoundTrip(t *testing.T) {
 			block := append([]byte{}, buf.Bytes()...)
 			buf.Reset()
 			got = nil
+			// a receiver that stopped emitting (header list too long) must still keep its table in step
+			emit := rng.Intn(5) != 0
+			d.SetEmitEnabled(emit)
+			if !emit {
+				history = append(history, "emit off")
+			}
 			// deliver in random fragments
 			for len(block) > 0 {
 				n := 1 + rng.Intn(len(block))
@@ -706,8 +712,11 @@ func TestVerifBoundedC18RoundTrip(t *testing.T) {
 			if err := d.Close(); err != nil {
 				fail("Close: %v", err)
 			}
-			if !vsameFields(got, fields) {
+			if emit && !vsameFields(got, fields) {
 				fail("decoded %q, encoded %q", got, fields)
+			}
+			if !emit && len(got) != 0 {
+				fail("fields emitted although emitting was disabled: %q", got)
 			}
 			if !vsameFields(d.dynTab.table.ents, e.dynTab.table.ents) || d.dynTab.size != e.dynTab.size || d.dynTab.maxSize != e.dynTab.maxSize {
 				fail("dynamic tables differ: decoder %q (size %d max %d), encoder %q (size %d max %d)", d.dynTab.table.ents, d.dynTab.size, d.dynTab.maxSize, e.dynTab.table.ents, e.dynTab.size, e.dynTab.maxSize)
